@@ -9,7 +9,7 @@ import warnings
 
 class _ListHandler(logging.Handler):
     def __init__(self, sink):
-        super().__init__(level=logging.DEBUG)
+        super().__init__(level=1)
         self.sink = sink
 
     def emit(self, record):
@@ -71,7 +71,7 @@ class Hygiene:
         self._handler = _ListHandler(self.records)
         root = logging.getLogger()
         self._old["level"] = root.level
-        root.setLevel(logging.DEBUG)
+        root.setLevel(1)        # every level, also what a library logs below DEBUG
         root.addHandler(self._handler)
         self._old["lastResort"] = logging.lastResort
         logging.lastResort = None
